@@ -33,7 +33,7 @@ KB3 = ["hexahedron", "hexahedron20", "hexahedron27"]
 KB2 = ["quad", "quad8", "quad9"]
 
 ITEMS = ["SolidBody/3d", "SolidBody/planestrain", "SolidBody/axi", "SolidBody/3d+nonsym", "SolidBody/planestrain+nonsym", "SolidBody/axi+nonsym", "SolidBody/mixed-threefield", "SolidBody/mixed-nearlyinc",
-         "SolidBody/mixed-axi", "SolidBody/mixed-planestrain", "SolidBody/linear-elastic", "SolidBody/plasticity",
+         "SolidBody/mixed-axi", "SolidBody/mixed-planestrain", "SolidBody/mixed-fullblocks", "SolidBody/linear-elastic", "SolidBody/plasticity",
          "NearlyIncompressible/3d", "NearlyIncompressible/planestrain", "NearlyIncompressible/axi",
          "Pressure/3d", "Pressure/planestrain", "Pressure/axi", "CauchyStress/3d", "CauchyStress/planestrain",
          "MPC", "Contact", "PointLoad", "BodyForce", "Gravity", "FormItem/linear-elastic", "FormItem/neo-hooke", "ItemList"]
@@ -50,6 +50,8 @@ def kinds_for(item):
         return ["hexahedron", "hexahedron20", "tetra10", "quad", "triangle6"]
     if item in ("SolidBody/mixed-axi", "SolidBody/mixed-planestrain"):
         return ["quad", "quad8", "triangle6"]
+    if item == "SolidBody/mixed-fullblocks":
+        return ["hexahedron", "hexahedron20", "tetra10", "quad", "quad8", "triangle6"]
     if item in ("Pressure/3d", "CauchyStress/3d"):
         return KB3
     if item in ("Pressure/planestrain", "Pressure/axi", "CauchyStress/planestrain"):
@@ -99,6 +101,31 @@ def user_material(fem, mu, beta):
         return [A]
 
     return fem.Material(stress, elasticity, mu=mu, beta=beta)
+
+
+class ScaledPerturbedLagrange:
+    """user two-field (u, p) law  r_u = P(F) + p J F^-T,  r_p = alpha (J - 1 - p / bulk): for alpha != 1 it has no
+    potential, K_pu != K_up^T, and the hessian must list all nv * nu blocks row-major (the 'full' block layout)."""
+
+    def __init__(self, fem, material, bulk, alpha):
+        self.fem, self.material, self.bulk, self.alpha = fem, material, bulk, alpha
+        self.x = [material.x[0], np.ones(1), material.x[-1]]
+
+    def gradient(self, x):
+        m = self.fem.math
+        [F, p], sv = x[:2], x[-1]
+        J = m.det(F)
+        iFT = m.transpose(m.inv(F, determinant=J))
+        P, svn = self.material.gradient([F, sv])
+        return [P + p * J * iFT, self.alpha * (J - 1 - p / self.bulk), svn]
+
+    def hessian(self, x):
+        m = self.fem.math
+        [F, p], sv = x[:2], x[-1]
+        J = m.det(F)
+        iFT = m.transpose(m.inv(F, determinant=J))
+        A = self.material.hessian([F, sv])[0] + p * J * (m.dya(iFT, iFT) - m.cdya_il(iFT, iFT))
+        return [A, J * iFT, self.alpha * J * iFT, -self.alpha / self.bulk * np.ones_like(p)]
 
 
 def set_state(fc, X, case, dim):
@@ -212,6 +239,16 @@ def check(item, case, rec):
             setx(fc, x_end)
             rec.label("stored-state")
         items = [body]
+    elif item == "SolidBody/mixed-fullblocks":
+        kw = {"planestrain": True} if dim == 2 else {}
+        fc = fem.FieldsMixed(region, n=2, **kw)
+        alpha = (1.0, 3.0, -0.5, 0.25)[case["lseed"] % 4]
+        um = ScaledPerturbedLagrange(fem, fem.NeoHooke(mu=1.0 + abs(case["load"])), case["bulk"], alpha)
+        body = fem.SolidBody(um, fc)
+        set_state(fc, X, case, dim)
+        symmetric = alpha == 1.0
+        rec.label("fullblocks:" + ("symmetric" if symmetric else "non-symmetric"))
+        items = [body]
     elif item.startswith("SolidBody/mixed"):
         kw = {}
         if item.endswith("axi"):
@@ -281,7 +318,9 @@ def check(item, case, rec):
             order = np.argsort(-X[:, 0])
             pts = np.sort(order[: min(4, len(X) - 1)])
             Xc = X[pts].mean(0)
-            Xc[0] = X[pts, 0].max() + 0.03
+            # every third case: the wall initially touches the outermost point(s) (zero initial gap on the normal axis)
+            touching = case["useed"] % 3 == 0
+            Xc[0] = X[pts, 0].max() + (0.0 if touching else 0.03)
             mesh = mesh.copy()
             mesh.update(points=np.vstack([X, Xc]))
             X = np.array(mesh.points)
@@ -301,9 +340,11 @@ def check(item, case, rec):
                 target = (-1.0 if want_closed else 1.0) * (0.01 + 0.04 * rng.uniform())
                 u[p, 0] = (X[c, 0] + u[c, 0]) - X[p, 0] - target
             gap = (u[c] + X[c]) - (u[pts] + X[pts])
-            if np.abs(gap[:, act]).min() < 1e-3 or np.abs(gap0[:, act]).min() < 1e-9:
+            if np.abs(gap[:, act]).min() < 1e-3:
                 rec.reject("gap too close to the switching point")
                 return
+            if (np.abs(gap0[:, act]) < 1e-12).any():
+                rec.label("contact:initially-touching")
             closed = (np.sign(gap0) != np.sign(gap))[:, act]
             rec.label("contact:closed+open" if closed.any() and (~closed).any() else "contact:one-sided")
         symmetric = True
